@@ -94,8 +94,9 @@ fn numeric_suggestion_payload(var: &impl Render, val: NumericConstant) -> Option
     })
 }
 
+// a poetic string literal ends at the end of the line
 fn string_suggestion_payload(var: &impl Render, val: &StringConstant) -> Option<String> {
-    Some(format!("{} says {}", var.render(), val.value))
+    (!val.value.contains('\n')).then(|| format!("{} says {}", var.render(), val.value))
 }
 
 fn suggestion_text(payload: &str) -> String {
